@@ -52,7 +52,7 @@ theorem clean_head {exts : Array Ext} {mx : List Nat} {i g : Nat} (hc : Clean ex
 section
 variable {exts : Array Ext} {nbF : Nat} {mx : List Nat}
 
-theorem canRepeat_spec (hv : AllValid exts nbF) (hmxl : mx.length = nbF) (hmx : ∀ g, g < nbF → mx.getD g 0 ≤ exts.size)
+theorem canRepeat_spec (hv : AllIF exts nbF) (hmxl : mx.length = nbF) (hmx : ∀ g, g < nbF → mx.getD g 0 ≤ exts.size)
     (rep : List Nat) (hrl : rep.length = nbF) (e : Ext) (g0 : Nat) :
     (∀ g, g0 ≤ g → g < nbF → Clean exts mx (rep.getD g 0) g) →
     canRepeat exts mx rep nbF e g0 = .ok (headsMatch (remsFrom exts mx rep nbF g0) e) := by
@@ -140,7 +140,7 @@ theorem canRepeat_spec (hv : AllValid exts nbF) (hmxl : mx.length = nbF) (hmx : 
     rw [remsFrom_end _ _ _ (by omega)]
     rfl
 
-theorem skipToFrame_spec (hv : AllValid exts nbF) (g j hi : Nat) (hhi : hi ≤ exts.size) :
+theorem skipToFrame_spec (hv : AllIF exts nbF) (g j hi : Nat) (hhi : hi ≤ exts.size) :
     ∃ j', skipToFrame exts g j hi = .ok j' ∧ j ≤ j' ∧ (j ≤ hi → j' ≤ hi) ∧
       (∀ e, exts[j']? = some e → j' < hi → e.frame.toNat = g) ∧ seg exts j' hi g = seg exts j hi g ∧ seg exts j j' g = [] := by
   fun_induction skipToFrame exts g j hi with
@@ -192,7 +192,7 @@ theorem getD_set_ne' (l : List Nat) (i j v : Nat) (h : i ≠ j) : (l.set i v).ge
   simp [List.getD, List.getElem?_set_ne h]
 
 /-- "Advance the repeat pointers": every queue from `g0` on loses its head. -/
-theorem advanceRep_spec (hv : AllValid exts nbF) (hmxl : mx.length = nbF) (hmx : ∀ g, g < nbF → mx.getD g 0 ≤ exts.size)
+theorem advanceRep_spec (hv : AllIF exts nbF) (hmxl : mx.length = nbF) (hmx : ∀ g, g < nbF → mx.getD g 0 ≤ exts.size)
     (g0 : Nat) (rep : List Nat) :
     rep.length = nbF →
     (∀ g, g0 ≤ g → g < nbF → Clean exts mx (rep.getD g 0) g ∧ rep.getD g 0 < mx.getD g 0) →
